@@ -82,6 +82,7 @@ func BFS(c *Ctx, fam Family, maxStates int) { BFSCollect(c, fam, maxStates, nil)
 
 // BFSCollect is BFS with a callback invoked (sequentially) for every new state.
 func BFSCollect(c *Ctx, fam Family, maxStates int, onState func(*Node)) {
+	defer c.Phase(fmt.Sprintf("BFS %T", fam))()
 	root, rk := fam.Root()
 	seen := map[keyHash]struct{}{hashKey(rk): {}}
 	abstract := map[string]struct{}{}
